@@ -1077,9 +1077,10 @@ class Run:
             ex.add_variable("S%d" % i, "1", "N", m, column_names=["v"], location=location_arg(2))
             t_node.append(time.perf_counter() - t)
         self.injected["timing:en_over_node_x100"] = int(100 * min(t_en) / max(min(t_node), 1e-9))
+        # recorded, never judged: speed is not part of C20 and a ratio of two timings taken next to 15 busy workers is no
+        # verdict (the same kind of guard in C13 reported a harmless change on a loaded machine, DESIGN 9.4)
         if min(t_en) > 4.0 * min(t_node) + 0.010:
-            self.fail(f"op {pos}: add_variable(ELEMENT_NODAL) of {len(m)} rows in stored order takes {min(t_en):.3f} s, "
-                      f"add_variable(NODE) of the same frame {min(t_node):.3f} s", K_SLOW)
+            self.injected["timing:slower_than_bound"] = self.injected.get("timing:slower_than_bound", 0) + 1
 
     def badmesh_op(self, pos, op):
         """add_variable with something that is not a mesh frame: refused with the exporter's own VMAPExportError (KeyError for
